@@ -123,7 +123,8 @@ def run(ctx):
     ctx.cov["rule"] = ("sequential: the complete reachable state graph of KnowledgeBase.tla (3 or 4 names x 3 saliences x enable "
                        "flags) is dumped by TLC and every (state,op) transition, all op sequences to the all-histories depth and "
                        "seeded walks to 8 ops are replayed on the real KnowledgeBase (list order, get_rule per name, names, count, "
-                       "by-salience, snapshot, statistics, version delta compared after every op), and again with the saliences relabelled "
+                       "by-salience, snapshot, statistics, version delta compared after every op; the operations include Fork = Clone, after which the "
+                       "original is kept and its complete observation must never change, and AddGrl = add_rules_from_grl with two rules), and again with the saliences relabelled "
                        "i32::MIN / 0 / i32::MAX; FireOrder.tla cases: the listing after 1..55 add_rule calls under eight salience patterns; concurrent: 3 threads x 4 ops histories (random mix incl. clear; a clear-heavy family; a "
                        "single-name contention family) recorded from the real object, each checked by TLC for a linearization that also "
                        "explains the quiescent read-back (listing, lookup of every name, count); a much larger number of histories is "
